@@ -56,6 +56,68 @@ Theorem C20_compact_preserves : forall rs cs, Forall2 pairP rs cs ->
 Proof. exact compact_preserves. Qed.
 Print Assumptions C20_compact_preserves.
 
+(* compact_vectors as the code runs it (first loop [first_null], second loop [compact_loop] with read index i
+   and write index pos, two resize(pos)) computes the specification [compact] whenever the two vectors have
+   the same size.  [compact_inplace] supplies its own fuel size-(pos+1), the iteration count of the for loop;
+   C20_compact_inplace_fuel shows that the bound does not truncate the loop. *)
+Theorem C20_compact_inplace_correct : forall rs cs, length rs = length cs -> compact_inplace rs cs = compact rs cs.
+Proof. exact compact_inplace_correct. Qed.
+Print Assumptions C20_compact_inplace_correct.
+
+Theorem C20_compact_inplace_fuel : forall rs cs k,
+  let pos := first_null 0 rs in
+  compact_loop (length rs - (pos + 1) + k) (pos + 1) pos rs cs = compact_loop (length rs - (pos + 1)) (pos + 1) pos rs cs.
+Proof. exact compact_inplace_fuel. Qed.
+Print Assumptions C20_compact_inplace_fuel.
+
+(* hence C20_compact_preserves holds of the in-place algorithm ... *)
+Theorem C20_compact_inplace_preserves : forall rs cs, Forall2 pairP rs cs ->
+  Forall2 pairP (fst (compact_inplace rs cs)) (snd (compact_inplace rs cs)) /\
+  somes (fst (compact_inplace rs cs)) = somes rs /\ ~ In None (fst (compact_inplace rs cs)).
+Proof. exact compact_inplace_preserves. Qed.
+Print Assumptions C20_compact_inplace_preserves.
+
+(* ... and in every reachable state the PCompact step of the model (written with [compact]) yields exactly
+   the vectors the in-place loop yields *)
+Theorem C20_compact_step_is_inplace : forall sched,
+  let g := fst (m_run sched) in compact_inplace (vreq g) (vcb g) = compact (vreq g) (vcb g).
+Proof. exact compact_step_is_inplace. Qed.
+Print Assumptions C20_compact_step_is_inplace.
+
+(* Every intermediate state (read index i, write index pos, requests_ = rs, callbacks_ = cs) of the second
+   loop, for vectors (rs0, cs0) at entry related slot by slot by ANY relation P (P := pairP: the callback of
+   slot k belongs to the request of slot k):
+   the write index is strictly behind the read index, the sizes do not change, the two vectors are STILL
+   related slot by slot (a request never sits next to a foreign callback, also in the stale slots between pos
+   and i), the written prefix is the compaction of what has been read, and everything from the read index on
+   is untouched — so the loop never reads a slot it has overwritten or moved from
+   ([callbacks_[pos] = std::move(callbacks_[i])] leaves slot i moved-from; the model keeps a copy there, which
+   by this theorem is never read again and is cut off by resize). *)
+Theorem C20_compact_inplace_aligned : forall (P : option req -> req * req -> Prop) rs0 cs0,
+  Forall2 P rs0 cs0 ->
+  forall i pos rs cs, In (i, (pos, rs, cs)) (compact_inplace_trace rs0 cs0) ->
+  pos < i /\ length rs = length rs0 /\ length cs = length cs0 /\
+  Forall2 P rs cs /\
+  (firstn pos rs, firstn pos cs) = compact (firstn i rs0) (firstn i cs0) /\
+  skipn i rs = skipn i rs0 /\ skipn i cs = skipn i cs0.
+Proof. exact compact_inplace_aligned_in. Qed.
+Print Assumptions C20_compact_inplace_aligned.
+
+(* [compact_inplace_trace] is the trace of the loop [compact_inplace] runs: its last entry is the loop's exit
+   state; if there is a null slot it has one entry per loop head and ends with read index = size *)
+Theorem C20_compact_trace_is_loop : forall rs cs d,
+  snd (last (compact_inplace_trace rs cs) d) =
+  compact_loop (length rs - (first_null 0 rs + 1)) (first_null 0 rs + 1) (first_null 0 rs) rs cs.
+Proof. exact compact_inplace_trace_last. Qed.
+Print Assumptions C20_compact_trace_is_loop.
+
+Theorem C20_compact_runs_to_end : forall rs cs,
+  length rs = length cs -> first_null 0 rs < length rs ->
+  length (compact_inplace_trace rs cs) = length rs - first_null 0 rs /\
+  fst (last (compact_inplace_trace rs cs) (0, (0, [], []))) = length rs.
+Proof. exact compact_inplace_runs_to_end. Qed.
+Print Assumptions C20_compact_runs_to_end.
+
 (* in every reachable state the two vectors are aligned slot by slot, hold no request twice, and contain
    a null slot only while a poller holds the lock *)
 Theorem C20_vectors_paired : forall sched,
@@ -145,3 +207,26 @@ Example C20_compact_inplace_example :
   let cs := [(4,4); (1,1); (7,7); (3,3); (5,5); (9,9); (2,2); (8,8)] in
   compact_inplace rs cs = compact rs cs /\ compact rs cs = ([Some 4; Some 7; Some 9; Some 2], [(4,4); (7,7); (9,9); (2,2)]).
 Proof. vm_compute. split; reflexivity. Qed.
+
+(* the intermediate states of that run: first null at 1, so i starts at 2 and pos at 1 *)
+Example C20_compact_trace_example :
+  let rs := [Some 4; None; Some 7; None; Some 9] in
+  let cs := [(4,4); (1,1); (7,7); (3,3); (9,9)] in
+  compact_inplace_trace rs cs =
+  [(2, (1, [Some 4; None; Some 7; None; Some 9], [(4,4); (1,1); (7,7); (3,3); (9,9)]));
+   (3, (2, [Some 4; Some 7; Some 7; None; Some 9], [(4,4); (7,7); (7,7); (3,3); (9,9)]));
+   (4, (2, [Some 4; Some 7; Some 7; None; Some 9], [(4,4); (7,7); (7,7); (3,3); (9,9)]));
+   (5, (3, [Some 4; Some 7; Some 9; None; Some 9], [(4,4); (7,7); (9,9); (3,3); (9,9)]))] /\
+  compact_inplace rs cs = ([Some 4; Some 7; Some 9], [(4,4); (7,7); (9,9)]).
+Proof. vm_compute. split; reflexivity. Qed.
+
+(* no null slot: the loop does not run, nothing is cut *)
+Example C20_compact_no_null_example :
+  compact_inplace [Some 1; Some 2] [(1,1); (2,2)] = ([Some 1; Some 2], [(1,1); (2,2)]) /\
+  compact_inplace_trace [Some 1; Some 2] [(1,1); (2,2)] = [(3, (2, [Some 1; Some 2], [(1,1); (2,2)]))].
+Proof. vm_compute. split; reflexivity. Qed.
+
+(* the length hypothesis of C20_compact_inplace_correct is needed (the C++ would index out of bounds) *)
+Example C20_compact_inplace_needs_length :
+  compact_inplace [Some 1; Some 2] [(1,1)] <> compact [Some 1; Some 2] [(1,1)].
+Proof. vm_compute. discriminate. Qed.
